@@ -48,6 +48,10 @@ var (
 	// ErrOpen is returned when a Store is already open.
 	ErrOpen = errors.New("store already open")
 
+	// ErrNilRequest is returned when an execute, query or unified request
+	// does not contain a Request.
+	ErrNilRequest = errors.New("request is nil")
+
 	// ErrNotReady is returned when a Store is not ready to accept requests.
 	ErrNotReady = errors.New("store not ready")
 
@@ -1455,6 +1459,9 @@ func (s *Store) Execute(ctx context.Context, ex *proto.ExecuteRequest) ([]*proto
 	if !s.open.Is() {
 		return nil, 0, ErrNotOpen
 	}
+	if ex.GetRequest() == nil {
+		return nil, 0, ErrNilRequest
+	}
 
 	// Check if context is already canceled
 	if err := ctx.Err(); err != nil {
@@ -1510,6 +1517,9 @@ func (s *Store) Query(ctx context.Context, qr *proto.QueryRequest) (rows []*prot
 
 	if !s.open.Is() {
 		return nil, 0, 0, ErrNotOpen
+	}
+	if qr.GetRequest() == nil {
+		return nil, 0, 0, ErrNilRequest
 	}
 
 	// Check if context is already canceled
@@ -1626,6 +1636,9 @@ func (s *Store) Request(ctx context.Context, eqr *proto.ExecuteQueryRequest) ([]
 
 	if !s.open.Is() {
 		return nil, 0, 0, ErrNotOpen
+	}
+	if eqr.GetRequest() == nil {
+		return nil, 0, 0, ErrNilRequest
 	}
 
 	// Check if context is already canceled
